@@ -4,6 +4,8 @@
 //! reports where the projected state differs from what TLC computed (S->I).
 mod util;
 mod c17;
+mod c08;
+mod dicts;
 
 fn main() {
     let args: Vec<String> = std::env::args().collect();
@@ -15,6 +17,7 @@ fn main() {
     let code = match args[1].as_str() {
         "c17-replay" => c17::replay(rest),
         "c17-record" => c17::record(rest),
+        "c08-replay" => c08::replay(rest),
         other => {
             eprintln!("unknown subcommand {}", other);
             2
